@@ -22,6 +22,7 @@ RULE = ("Generated: portfolio (contracts, takes, transports, multi-commodity, st
         "prices the optimal value is unchanged; the call raises nothing. Non-trivial: window non-empty and proper, "
         ">= 1 pinned variable with non-zero value, and (new prices change the optimum or a variable with several "
         "mapping rows is pinned). Distinct = distinct spec hash.")
+RULE += (' In a quarter of the monolithic cases the grid is set beforehand (set_timegrid) and the call leaves `timegrid` at its default.')
 ASSUMPTIONS = ["date form: the date lies strictly between two grid points (inclusive/exclusive at a grid point is not specified); "
                "on zone-aware grids the date is an aware stamp, in half of the cases written in UTC",
                "a variable of a coarse-frequency / periodic asset belongs to all its steps: it is pinned if any of them lies in the window"]
